@@ -81,7 +81,9 @@ def jobs_c19(tier):
 
 
 def jobs_vec(tier, program=True):
-    js = levels("std", "fast") + [J("nosimd", "fast"), J("std", "checked", "host", 0.25), J("nosimd", "checked", "host", 0.5)]
+    # nostd-avx2: the whole build has +ssse3/+avx2 statically enabled while every Machine (also SSE2) is instantiated
+    js = levels("std", "fast") + [J("nosimd", "fast"), J("std", "checked", "host", 0.25), J("nosimd", "checked", "host", 0.5),
+                                  J("nostd-avx2", "fast", "host", 0.15), J("nostd-ssse3", "fast", "host", 0.15)]
     if program:
         js.append(J("std", "fast", "host", args={"--only": "program"}, tag="program"))
     if tier != "quick":
@@ -112,7 +114,9 @@ def jobs_c16(tier):
 
 def jobs_c18(tier):
     js = [fam("std", "fast", "concurrent-cold"), fam("std", "fast", "concurrent-sustained"), fam("std", "fast", "interleaved"),
-          fam("std", "checked", "interleaved", 0.5)]
+          fam("std", "checked", "interleaved", 0.5),
+          # compile-time dispatch builds have their own one-time initialisation paths
+          fam("nostd-sse2", "fast", "concurrent-cold", 0.7), fam("nostd-avx2", "fast", "concurrent-cold", 0.3)]
     return js
 
 
@@ -143,7 +147,7 @@ PLANS = {
     },
     "C18": {
         "jobs": jobs_c18,
-        "parallel": 3,
+        "parallel": 2,
         "rule": "(a) concurrent first use, randomised stress (the schedule is not controlled): generated cases of 2..48 threads, each with a "
                 "spin count before its first call and 1..3 short jobs over 28 algorithms (17 hashes, 7 ciphers, 3 Threefish sizes, block "
                 "API), 70 % of the threads making their first call into one shared target; and sustained cases of 8..32 threads pushing "
